@@ -13,14 +13,49 @@ package main
 // descriptor.  Anything else makes the unit fail (GenEmitter.err).
 
 import (
+	"crypto/sha256"
+	"encoding/json"
 	"fmt"
 	"go/ast"
 	"go/constant"
 	"go/token"
 	"go/types"
+	"os"
 	"sort"
 	"strings"
 )
+
+// writeSourceHashes records, before anything is evaluated (so that it exists even when the unit fails),
+// the hash of the source text of every exported method of *Emitter and one hash over everything else in
+// package asm.  The check uses it in fallback mode to decide which methods changed since the snapshot.
+func writeSourceHashes(l *loader, p *pkgInfo, dir string) {
+	methods := map[string]string{}
+	rest := sha256.New()
+	srcs := map[string][]byte{}
+	for i, f := range p.files {
+		fn := l.fset.Position(f.Pos()).Filename
+		b, err := os.ReadFile(fn)
+		if err != nil {
+			panic(terr{err.Error()})
+		}
+		srcs[fn] = b
+		_ = i
+		last := 0
+		for _, dcl := range f.Decls {
+			fd, ok := dcl.(*ast.FuncDecl)
+			if !ok || fd.Recv == nil || !fd.Name.IsExported() {
+				continue
+			}
+			a, z := l.fset.Position(fd.Pos()).Offset, l.fset.Position(fd.End()).Offset
+			rest.Write(b[last:a])
+			last = z
+			methods[fd.Name.Name] = fmt.Sprintf("%x", sha256.Sum256(b[a:z]))
+		}
+		rest.Write(b[last:])
+	}
+	js, _ := json.MarshalIndent(map[string]interface{}{"methods": methods, "rest": fmt.Sprintf("%x", rest.Sum(nil))}, "", " ")
+	writeFile(dir, "GenEmitterSrc.json", string(js))
+}
 
 // ---------------------------------------------------------------- symbolic values
 
@@ -1040,6 +1075,7 @@ func genEmitter(l *loader, dir string) {
 	if err != nil {
 		panic(terr{err.Error()})
 	}
+	writeSourceHashes(l, p, dir)
 	u := &emUnit{l: l, p: p, decls: map[*types.Func]*ast.FuncDecl{}, kinds: map[string]*emitKind{}}
 	for _, f := range p.files {
 		for _, dcl := range f.Decls {
